@@ -746,7 +746,7 @@ func runCursorCase(c cursorCase, sec *vh.Section) (p pending, ok bool) {
 	if err != nil {
 		// the model: no sources -> error; anything else must build
 		res.Eval(sec, "")
-		return pending{"cursor", "cursor.newCursor", c, fmt.Sprintf("cur %d |", n), "nosources"}, true
+		return pending{"cursor", "cursor.newCursor", c, fmt.Sprintf("curs %d |", n), "nosources"}, true
 	}
 	// the source order newCursor used
 	var ordered []leafSpec
@@ -759,6 +759,18 @@ func runCursorCase(c cursorCase, sec *vh.Section) (p pending, ok bool) {
 		res.SpecFail(vh.SpecFailure{Section: "cursor", Kind: "source-not-opened-once", Input: c, Impl: fmt.Sprint(f.order), Spec: fmt.Sprintf("each of the %d sources once", n),
 			What: "newCursor did not create exactly one iterator per selected partition"})
 		return pending{}, false
+	}
+	// since /repo f086c95 the order is the ascending (Go string) order of the tag lines, whatever the map iteration did
+	if n >= 2 {
+		want := make([]int, 0, n)
+		for _, l := range c.Leaves {
+			want = append(want, l.Tags)
+		}
+		sort.Slice(want, func(a, b int) bool { return tagLine(want[a]) < tagLine(want[b]) })
+		if fmt.Sprint(want) != fmt.Sprint(f.order) {
+			res.Mismatch(vh.Mismatch{Section: "cursor", Function: "cursor.newCursor: order of the sources (= tie priority) must be the sorted tag lines", Input: c,
+				Impl: fmt.Sprint(f.order), Model: fmt.Sprint(want)})
+		}
 	}
 	toks, drains := runOps(cur, nil, c.Ops, totalRecs(c.Leaves))
 	cursor.CloseCursorVerif(cur)
@@ -799,9 +811,12 @@ func runCursorCase(c cursorCase, sec *vh.Section) (p pending, ok bool) {
 			break
 		}
 	}
-	line := fmt.Sprintf("cur %d", n)
-	for _, l := range ordered {
-		line += " " + l.line()
+	// MODEL: the map entries in an arbitrary iteration order (here: the reverse of the case's order); the model orders them
+	// the way the code does now (regenerated fact newCursorSortsSources), reduces, and runs the script
+	_ = ordered
+	line := fmt.Sprintf("curs %d", n)
+	for i := len(c.Leaves) - 1; i >= 0; i-- {
+		line += " " + vh.HxS(string(tagLine(c.Leaves[i].Tags))) + " " + c.Leaves[i].line()
 	}
 	// the root's mixer state is not visible through the cursor: strip the model's suffixes by asking without them
 	return pending{"cursor", "cursor.newCursor (mixer tree) + Get/Next/Release/SetBackward", map[string]interface{}{"case": c, "map_order": f.order},
@@ -810,7 +825,7 @@ func runCursorCase(c cursorCase, sec *vh.Section) (p pending, ok bool) {
 
 func sectionCursor(rng *vh.Rng, corpus []cursorCase) {
 	sec := res.Section("cursor", "unit-correspondence",
-		"cursor.newCursor over a fake ItFactory with n sources, every n in 0..64 (4 content shapes each quick, 20 thorough), contents with ties across sources, empty sources, unsorted sources; the observed order of the Itearator calls is the map order newCursor reduced, so the cursor's answers are compared exactly with MixTree.build for that order (scripts as in section mixer, incl. direction switches in mid-stream with a pending selection), and with the property; non-trivial = at least 2 sources and 2 events")
+		"cursor.newCursor over a fake ItFactory with n sources, every n in 0..64 (4 content shapes each quick, 20 thorough), contents with ties across sources, empty sources, unsorted sources; the observed order of the Itearator calls must be the ascending tag-line order (t=1 < t=10 < t=2: Go string order), and the cursor's answers are compared exactly with the model that sorts the map entries (regenerated fact) and reduces them (scripts as in section mixer, incl. direction switches in mid-stream with a pending selection), and with the property; non-trivial = at least 2 sources and 2 events")
 	var ps []pending
 	add := func(c cursorCase) {
 		if p, ok := runCursorCase(c, sec); ok {
@@ -1151,6 +1166,29 @@ func runSystemCase(srv *lrsrv.Srv, c systemCase, sec *vh.Section, limit int) (ps
 		}
 		if kind, w := checkProperty(got, alone, back); kind != "" {
 			fail(kind, fmt.Sprintf("%s read over %d partitions: %s", dir, c.N, w), evsString(got), "union of the partitions read alone")
+		} else if c.Shape != "unsorted" && c.Shape != "corpus" {
+			// MODEL (merged_order_deterministic, tie_priority): with every partition in time order the merged stream is the total order
+			// (timestamp, rank of the tag line, stored position) — forward ascending, backward exactly its reverse. (For unsorted
+			// partitions the result depends on the tree shape; that is compared in the cursor section.)
+			idx := make([]int, c.N)
+			for i := range idx {
+				idx[i] = i
+			}
+			lineOf := func(i int) string { t, _ := tag.Parse(tagsOf[i]); return string(t.Line()) }
+			sort.Slice(idx, func(a, b int) bool { return lineOf(idx[a]) < lineOf(idx[b]) })
+			var want []ev
+			for _, i := range idx {
+				want = append(want, written[i]...)
+			}
+			sort.SliceStable(want, func(a, b int) bool { return want[a].Ts < want[b].Ts })
+			if back {
+				for x, y := 0, len(want)-1; x < y; x, y = x+1, y-1 {
+					want[x], want[y] = want[y], want[x]
+				}
+			}
+			if evsString(got) != evsString(want) {
+				res.Mismatch(vh.Mismatch{Section: "system", Function: "tie order of the " + dir + " merged read = tag-line priority (sorted sources)", Input: c, Impl: evsString(got), Model: evsString(want)})
+			}
 		}
 	}
 	// through the API: a page of k events, then a query from the returned position with a negative offset — the cursor
